@@ -209,21 +209,24 @@ def DescriptorPayload.cc (tb : Descriptor.Tables) (pad : Nat) : CC Descriptor.Bl
 
 /-! ## image_resources.py: Slices / SlicesV6 / SliceV6 -/
 
-/-- the speculative read of the per-slice descriptor: `is_readable(fp, 4)`, `read_fmt("I")` and seek back, then
-`try: DescriptorBlock.read(fp) … except (ValueError, IOError): fp.seek(current_position)` — the attempt is paid for
-whether its result is kept, discarded (`classID == b"\0\0\0\0"`) or undone -/
+/-- `try: data = DescriptorBlock.read(fp); if data.classID == b"\0\0\0\0": raise ValueError
+except (ValueError, IOError): fp.seek(current_position)`: what the attempt cost is spent whether its result is kept,
+discarded or undone (like `orElseIOC`) -/
+def SliceV6.tryBlockC (tb : Descriptor.Tables) : RC (Option Descriptor.Block) := fun d p =>
+  ((match (DescriptorCost.Block.decC tb d p).1 with
+    | .ok (blk, p') => if blk.classID.bytes = SliceV6.zeroKey then .ok (none, p) else .ok (some blk, p')
+    | .error .valueError => .ok (none, p)
+    | .error .unicodeError => .ok (none, p)
+    | .error .ioError => .ok (none, p)
+    | .error e => .error e), (DescriptorCost.Block.decC tb d p).2)
+
+/-- the speculative read of the per-slice descriptor: `is_readable(fp, 4)`, `read_fmt("I")` and seek back, then the
+attempt when the four bytes are the version 16 -/
 def SliceV6.peekDataC (tb : Descriptor.Tables) : RC (Option Descriptor.Block) := fun d p => do
   let r ← isReadableC 4 d p
   if r then do
     let (version, _) ← readUC 4 d p
-    if version = 16 then
-      ((match (DescriptorCost.Block.decC tb d p).1 with
-        | .ok (blk, p') => if blk.classID.bytes = SliceV6.zeroKey then .ok (none, p) else .ok (some blk, p')
-        | .error .valueError => .ok (none, p)
-        | .error .unicodeError => .ok (none, p)
-        | .error .ioError => .ok (none, p)
-        | .error e => .error e), (DescriptorCost.Block.decC tb d p).2)
-    else CE.ok (none, p)
+    if version = 16 then SliceV6.tryBlockC tb d p else CE.ok (none, p)
   else CE.ok (none, p)
 
 def SliceV6.assocDecC (head : Row) : RC (Option Row) := fun d p =>
